@@ -21,6 +21,7 @@ import (
 	"github.com/deepteams/webp/internal/zzverif/vhook"
 	"github.com/deepteams/webp/internal/zzverif/vp8gen"
 	"github.com/deepteams/webp/internal/zzverif/vsync"
+	"github.com/deepteams/webp/mux"
 )
 
 // C10 — results do not depend on goroutine scheduling or concurrent use
@@ -126,12 +127,115 @@ func c10Scenarios(seed int64) []c10Scen {
 	vpB, _ := vp8gen.Generate(vp8Preset{"dims": 4, "coeffs": 7, "filter-level": 3, "lf-delta": 1, "ymode": 6}, seed)
 	add(c10Scen{name: "S8d two lossy decodes sharing pools (loop-filter deltas updated / kept)", workers: 1, quickP: 2, thorP: 3, calls: []func() []byte{
 		decPix(riffwalk.RIFF(riffwalk.ChunkBytes("VP8 ", vpA.Encode()))), decPix(riffwalk.RIFF(riffwalk.ChunkBytes("VP8 ", vpB.Encode())))}})
+	// S8a/S8l/S8e: two calls of the same kind on different pictures of one size - whatever one
+	// of them gives back to a pool (decoder, planes, scratch) the other can pick up at once
+	alphaA := mustEncode(imgs.Make(16, 16, "noise", "agradient", seed), nil)
+	alphaB := mustEncode(imgs.Make(16, 16, "gradient", "anoise", seed+1), nil)
+	add(c10Scen{name: "S8a two lossy+alpha decodes (different pictures, one size) sharing pools", workers: 1, quickP: 2, thorP: 3, calls: []func() []byte{decPix(alphaA), decPix(alphaB)}})
+	llA := mustEncode(imgs.Make(16, 16, "noise", "agradient", seed), ll(4, 75))
+	llB := mustEncode(imgs.Make(16, 16, "c4", "binary", seed+1), ll(4, 75))
+	add(c10Scen{name: "S8l two lossless decodes (different pictures, one size) sharing pools", workers: 1, quickP: 2, thorP: 3, calls: []func() []byte{decPix(llA), decPix(llB)}})
+	add(c10Scen{name: "S8e two lossless encodes (palette picture, many-colour picture) sharing pools", workers: 1, quickP: 2, thorP: 3, calls: []func() []byte{
+		encBytes(imgs.Make(16, 16, "c4", "binary", seed+1), ll(4, 75)), encBytes(imgs.Make(16, 16, "noise", "agradient", seed), ll(4, 75))}})
 	same := imgs.Make(16, 32, "noise", "agradient", seed)
 	add(c10Scen{name: "S9 two threads encode the same image object", workers: 1, quickP: 2, thorP: 3, calls: []func() []byte{encBytes(same, lossy(4)), encBytes(same, ll(4, 75))}})
 	add(c10Scen{name: "S10 lossless 64x64 gradient m6 q100 workers=3", workers: 3, quickP: 2, thorP: 3, calls: []func() []byte{encBytes(imgs.Make(64, 64, "gradient", "opaque", seed), ll(6, 100))}})
 	// S11: the quality >= 90 histogram refinement pass with many workers on a picture with large flat
 	// areas (empty histogram tiles fall on the workers' chunk boundaries)
 	add(c10Scen{name: "S11 lossless 320x320 gradient m6 q100 workers=10 (histogram remap over empty tiles)", workers: 10, quickP: 1, thorP: 2, calls: []func() []byte{encBytes(imgs.Make(320, 320, "gradient", "opaque", seed), ll(6, 100))}})
+	// S12-S14: the other entry points the statement names - the animation encoder and
+	// player, the muxer/demuxer and the header queries - used from several threads at once
+	// (they share the codec pools, the lazily built tables and package-level hooks)
+	aframes := []image.Image{imgs.Make(16, 16, "c4", "binary", seed), imgs.Make(16, 16, "c4", "binary", seed+1), imgs.Make(16, 16, "gradient", "agradient", seed+2)}
+	animEnc := func(lossless, mixed bool) func() []byte {
+		return func() []byte {
+			var buf bytes.Buffer
+			enc := animation.NewEncoder(&buf, 16, 16, &animation.EncodeOptions{Lossless: lossless, AllowMixed: mixed, Quality: 75})
+			for i, f := range aframes {
+				if err := enc.AddFrame(f, time.Duration(40+i)*time.Millisecond); err != nil {
+					return []byte("error: " + err.Error())
+				}
+			}
+			if err := enc.Close(); err != nil {
+				return []byte("error: " + err.Error())
+			}
+			return buf.Bytes()
+		}
+	}
+	animPlay := func(data []byte) func() []byte {
+		return func() []byte {
+			an, err := animation.DecodeBytes(data)
+			if err != nil {
+				return []byte("error: " + err.Error())
+			}
+			if err := an.DecodeFrames(); err != nil {
+				return []byte("error: " + err.Error())
+			}
+			ad, err := animation.NewAnimDecoder(an)
+			if err != nil {
+				return []byte("error: " + err.Error())
+			}
+			var out []byte
+			for ad.HasNext() {
+				snap, d, err := ad.NextFrame()
+				if err != nil {
+					return append(out, []byte("error: "+err.Error())...)
+				}
+				out = append(append(out, []byte(fmt.Sprint(d))...), snap.Pix...)
+			}
+			return out
+		}
+	}
+	hdr := func(data []byte) func() []byte {
+		return func() []byte {
+			cfg, cerr := webp.DecodeConfig(bytes.NewReader(data))
+			ft, ferr := webp.GetFeatures(bytes.NewReader(data))
+			return []byte(fmt.Sprintf("%v %v %v %v | %+v %v", cfg.Width, cfg.Height, modelName(cfg.ColorModel), cerr, ft, ferr))
+		}
+	}
+	llAnim, mixAnim := animEnc(true, false)(), animEnc(false, true)()
+	add(c10Scen{name: "S12 AnimEncoder (lossless) || player of a mixed animation || DecodeConfig+GetFeatures, sharing pools", workers: 1, quickP: 2, thorP: 2, thorPre: true,
+		calls: []func() []byte{animEnc(true, false), animPlay(mixAnim), hdr(small)}})
+	add(c10Scen{name: "S13 AnimEncoder (lossy+mixed, alpha) || AnimEncoder (lossless) || player of a lossless animation, sharing pools", workers: 1, quickP: 2, thorP: 2, thorPre: true,
+		calls: []func() []byte{animEnc(false, true), animEnc(true, false), animPlay(llAnim)}})
+	c14Init()
+	muxAsm := func(k int) func() []byte {
+		return func() []byte {
+			m := mux.NewMuxer()
+			for i := 0; i < 3; i++ {
+				f := c14FrameSet[(k+i)%len(c14FrameSet)]
+				if err := m.AddFrame(f.data, &mux.FrameOptions{Duration: 30 + i, OffsetX: 2 * i}); err != nil {
+					return []byte("error: " + err.Error())
+				}
+			}
+			m.SetLoopCount(3 + k)
+			m.SetEXIF([]byte{1, 2, 3})
+			var b bytes.Buffer
+			if err := m.Assemble(&b); err != nil {
+				return []byte("error: " + err.Error())
+			}
+			return b.Bytes()
+		}
+	}
+	demux := func(data []byte) func() []byte {
+		return func() []byte {
+			d, err := mux.NewDemuxer(data)
+			if err != nil {
+				return []byte("error: " + err.Error())
+			}
+			out := []byte(fmt.Sprintf("%+v %d %d|", d.GetFeatures(), d.LoopCount(), d.NumFrames()))
+			for i := 0; i < d.NumFrames(); i++ {
+				fi, err := d.Frame(i)
+				if err != nil {
+					return append(out, []byte("error: "+err.Error())...)
+				}
+				out = append(append(append(out, []byte(fmt.Sprintf("%d,%d,%d,%v,%v|", fi.OffsetX, fi.OffsetY, fi.Duration, fi.BlendMode, fi.DisposeMode))...), fi.Data...), fi.AlphaData...)
+			}
+			return out
+		}
+	}
+	add(c10Scen{name: "S14 Muxer.Assemble || Muxer.Assemble || Demuxer of a muxed animation || Decode, sharing pools", workers: 1, quickP: 2, thorP: 2, thorPre: true,
+		calls: []func() []byte{muxAsm(0), muxAsm(2), demux(muxAsm(1)()), decPix(small)}})
 	return out
 }
 
@@ -241,7 +345,7 @@ func c10Judge(s *c10Scen, ref []string, seqOK []map[string]bool, results [][]byt
 func init() {
 	fw.Register(&fw.Check{
 		ID: "C10", Level: "model_checking", Shards: shards16,
-		Rule:   "stateless exploration of the real code under a controlled scheduler that owns every sync/atomic/pool/channel/go operation (instrumenter rewrite R2): for each of 15 scenarios (row-pipelined lossy encoder with 1-, 2- and 3-macroblock-wide pictures, alpha, lossless encode/decode parallel sections, parallel frame decoding, concurrent public calls with and without pool sharing, two threads on one image) ALL schedules with at most D non-default scheduling decisions (quick: delay bound 2; thorough: preemption bound 2 with free switches at blocking points for the pipeline/channel/public-call scenarios, delay bound 3 elsewhere; per scenario in the evidence) are executed; oracle: bytes/pixels equal the non-preempted schedule (concurrent calls: each result equals what the same call returns when run alone with empty pools), no deadlock, lost wake-up, livelock or panic; plus a separate free-running -race pass of the same bodies",
+		Rule:   "stateless exploration of the real code under a controlled scheduler that owns every sync/atomic/pool/channel/go operation (instrumenter rewrite R2): for each of 21 scenarios (row-pipelined lossy encoder with 1-, 2- and 3-macroblock-wide pictures, alpha, lossless encode/decode parallel sections, parallel frame decoding, concurrent public calls with and without pool sharing (mixed kinds, and pairs of one kind: lossy encodes, lossy decodes, lossy+alpha decodes, lossless decodes, lossless encodes), two threads on one image, animation encoder + player + header queries, two animation encoders + player, two muxers + demuxer + Decode) ALL schedules with at most D non-default scheduling decisions (quick: delay bound 2; thorough: preemption bound 2 with free switches at blocking points for the pipeline/channel/public-call scenarios, delay bound 3 elsewhere; per scenario in the evidence) are executed; oracle: bytes/pixels equal the non-preempted schedule (concurrent calls: each result equals what the same call returns when run alone with empty pools), no deadlock, lost wake-up, livelock or panic; plus a separate free-running -race pass of the same bodies",
 		Assume: []string{"sequential consistency at synchronisation operations; plain data races are only sampled by the free-running -race pass", "a completed sync.Once is not a scheduling point", "worker vector fixed per scenario; pools most-recent (fresh for S8)"},
 		Run: func(e *fw.Env, r *fw.Result) {
 			if len(e.Args) > 0 && e.Args[0] == "racepass" {
